@@ -29,7 +29,7 @@ def kind_scope(*mods):
 
 PROPS = {
     "C10": {
-        "rules": [r_panic.run, r_panic.run_errprop],
+        "rules": [r_panic.run, r_panic.run_errprop, r_panic.run_narrow_arith],
         "explanation": "PANIC: every potential panic or silent-wrap site (assert terminators for "
                        "bounds/overflow/division/shift, calls to unwrap/expect/panic!/assert!/"
                        "indexing/copy_from_slice/chunks/..., narrowing `as` casts) in the "
@@ -139,7 +139,7 @@ PROPS = {
         "technique": "kind propagation, format-template decoding, sign-parity rule",
     },
     "C07": {
-        "rules": [r_scorer.run, kind_scope("connector", "scorer", "builder")],
+        "rules": [r_scorer.run, kind_scope("connector", "scorer", "builder"), r_panic.run_narrow_connector],
         "explanation": "SCORERCHK: in the portable build costs[pos] is read only on the true edge "
                        "of checks[pos] == key1 at pos = bases[key1] ^ key2; in the AVX2 build the "
                        "cost gather is masked by cmpeq(check, key1) AND the position-validity "
